@@ -41,3 +41,24 @@ Theorem C10_code_accepted : forall table k,
   memb k (flat_map code_accepted_for table) = memb k (accepted table).
 Proof. exact code_accepted_same. Qed.
 Print Assumptions C10_code_accepted.
+
+(* ---- the selection of 1-D data points, as WRITTEN in DataMixin._interpret_data (Gen/C10_select.v: the statements that
+   build `index`, evaluated symbolically for each combination of "the data has a mask" / "has intensities") is the model's:
+   inside [qmin, qmax], not masked, not NaN - each condition on its own *)
+From SM Require Import Base.Num C10.Select Gen.C10_select.
+Theorem C10_code_selection : selection_translated = true -> forall (T : Type) (O : Ops T) qmin qmax x has_mask masked has_y ynan,
+  code_keep1d O qmin qmax x has_mask masked has_y ynan = keep1d_model O qmin qmax x has_mask masked has_y ynan.
+Proof.
+  intros Ht. try solve [vm_compute in Ht; discriminate Ht].
+  all: intros T O qmin qmax x has_mask masked has_y ynan; unfold code_keep1d, keep1d_model.
+  all: destruct has_mask, masked, has_y, ynan; destruct (leb O qmin x); destruct (leb O x qmax); reflexivity.
+Qed.
+Print Assumptions C10_code_selection.
+Theorem C10_nan_never_selected : forall (T : Type) (O : Ops T) qmin qmax x has_mask masked,
+  keep1d_model O qmin qmax x has_mask masked true true = false.
+Proof. exact @nan_never_selected. Qed.
+Print Assumptions C10_nan_never_selected.
+Theorem C10_masked_never_selected : forall (T : Type) (O : Ops T) qmin qmax x has_y ynan,
+  keep1d_model O qmin qmax x true true has_y ynan = false.
+Proof. exact @masked_never_selected. Qed.
+Print Assumptions C10_masked_never_selected.
